@@ -2,6 +2,7 @@ import FrappyProofs.Lemmas.CompatComplete
 import FrappyProofs.Lemmas.CompatLawsRat
 import FrappyProofs.Lemmas.CopyHeap
 import FrappyProofs.Lemmas.DatainfoOpt
+import FrappyProofs.Lemmas.Variants
 import FrappyModel.Generated.C03
 /-
 C03 — property theorems (nothing but property theorems, table facts and non-vacuity examples).
@@ -120,6 +121,65 @@ theorem compatible_complete (a b : DType F) (ha : a.WF) (hb : b.WF) (hal : GridA
     (hn : Nested a b) : compatible a b = .ok () :=
   compat_complete a b ha hb hal hbl hn
 
+/-! ## compatibility verdicts with derived classes (`TextType`, `LimitsType`, `StatusType`) on either side -/
+
+open Frappy.Lemmas.C03V in
+/-- a derived class gets the verdict of the kind it is described as: on either side, at any depth, `compatibleC`
+(the inherited `compatible` methods with their `isinstance` / attribute tests, `FrappyModel/Datatypes/Variants.lean`)
+is `compatible` of the two kind trees — in particular a datatype and its own description are compatible whenever
+the description is compatible with itself -/
+theorem compatibleC_as_described (a b : CType F) (hb : b.WF) : compatibleC a b = compatible a.erase b.erase :=
+  compatibleC_erase a b (wf_leafy b hb)
+
+open Frappy.Lemmas.C03V in
+/-- "it does pass for the pairings it is written to support when the value sets are nested", derived classes
+included: `NestedC` = the kind trees are nested and every `LimitsType` of the second meets a `LimitsType` of the first -/
+theorem compatibleC_complete (a b : CType F) (ha : a.WF) (hb : b.WF) (hal : GridAligned a.erase)
+    (hbl : GridAligned b.erase) (hn : NestedC a b) : compatibleC a b = .ok () := by
+  rw [compatibleC_as_described a b hb]
+  exact compat_complete a.erase b.erase (erase_wf a ha) (erase_wf b hb) hal hbl hn.1
+
+/-- the full statement for trees with derived classes: the value set is `InSetC` (pairs of a `LimitsType` ordered),
+"valid for the second" is `cvalidate` (the order test of every `LimitsType` included) -/
+def compatibleC_sound_statement (F : Type) [FloatOps F] : Prop :=
+  ∀ a b : CType F, a.WF → b.WF → GridAligned a.erase → GridAligned b.erase → ResLeOne b.erase →
+    OptionalRespected a.erase b.erase → compatibleC a b = .ok () →
+    ∀ v, InSetC a v → ∃ r, cvalidate b v none = .ok r
+
+open Frappy.Lemmas.C03V in
+/-- proved part: a passing check is sound when the *second* type holds no `LimitsType` (derived classes anywhere in
+the first, `TextType` / `StatusType` anywhere in the second) — always the case when the second type was rebuilt from
+a description (`ProxyModule._check_descriptive_data`: `pobj.datatype.compatible(remote datatype)`).  Missing for the
+full statement: a `LimitsType` in the second type.  Against a plain tuple the statement is false
+(`compatibleC_sound_fails_limits`, recorded finding); against a `LimitsType` of the first type it needs that
+`validate` of the number kinds is monotone (ordered pairs stay ordered), which is not proved. -/
+theorem compatibleC_sound_partial (a b : CType F) (ha : a.WF) (hb : b.WF) (hal : GridAligned a.erase)
+    (hbl : GridAligned b.erase) (hres : ResLeOne b.erase) (hopt : OptionalRespected a.erase b.erase)
+    (hlim : b.limitsFree = true) (h : compatibleC a b = .ok ()) :
+    ∀ v, InSetC a v → ∃ r, cvalidate b v none = .ok r := by
+  intro v hv
+  rw [cvalidate_limitsFree b hlim]
+  rw [compatibleC_as_described a b hb] at h
+  exact compat_sound a.erase b.erase (erase_wf a ha) (erase_wf b hb) hal hbl hres hopt h v hv.1
+
+/-- the full statement fails on the code that exists: `TupleOf(IntRange(0,10), IntRange(0,10))` passes the check
+against `LimitsType(IntRange(0,10))`, and `(10, 0)` — valid for the plain tuple — is refused by `LimitsType.validate` -/
+theorem compatibleC_sound_fails_limits : ¬ compatibleC_sound_statement Rat := by
+  intro hs
+  have h := hs (.tuple [.leaf (.int 0 10), .leaf (.int 0 10)]) (.limits (.leaf (.int 0 10)))
+    (by simp [CType.WF, CType.WFList, DType.WF, DType.isLeafKind, DType.intLimit])
+    (by simp [CType.WF, CType.isNumeric, DType.WF, DType.isLeafKind, DType.intLimit])
+    (by simp [CType.erase, CType.eraseList, GridAligned, GridAlignedList])
+    (by simp [CType.erase, GridAligned, GridAlignedList])
+    (by simp [CType.erase, ResLeOne, ResLeOneList])
+    (by simp [CType.erase, CType.eraseList, OptionalRespected, OptionalRespectedList])
+    rfl (.tuple [.int 10, .int 0])
+    (by simp [InSetC, InSet, InSetG, ZipInG, CType.erase, CType.eraseList, OrderedIn, OrderedZip])
+  obtain ⟨r, hr⟩ := h
+  have : cvalidate (.limits (.leaf (.int 0 10)) : CType Rat) (.tuple [.int 10, .int 0]) none = .error .range := rfl
+  rw [this] at hr
+  cases hr
+
 /-- the monitor decides `Nested` -/
 theorem nestedB_iff (a b : DType F) : nestedB a b = true ↔ Nested a b := decide_eq_true_iff
 
@@ -212,6 +272,31 @@ example : ∃ (a b : DType Rat), a.WF ∧ b.WF ∧ GridAligned a ∧ GridAligned
 example : ∃ (a b : DType Rat), a.WF ∧ b.WF ∧ GridAligned a ∧ GridAligned b ∧ Nested a b :=
   ⟨.array (.int 1 2) 0 3, .array (.enum [("a", 1), ("b", 2)]) 0 5, by simp [DType.WF, DType.intLimit],
     by simp [DType.WF, DType.namesOK], trivial, trivial, by simp [Nested, rangeInB, rangeInFrom]⟩
+
+/-- `compatibleC_complete` applies to a `LimitsType` against the plain tuple it is described as (with wider members) … -/
+example : ∃ (a b : CType Rat), a.WF ∧ b.WF ∧ GridAligned a.erase ∧ GridAligned b.erase ∧ NestedC a b ∧ a.cls = "limits" :=
+  ⟨.limits (.leaf (.int 1 2)), .tuple [.leaf (.int 0 5), .leaf (.int 1 2)],
+    by simp [CType.WF, CType.isNumeric, DType.WF, DType.isLeafKind, DType.intLimit],
+    by simp [CType.WF, CType.WFList, DType.WF, DType.isLeafKind, DType.intLimit],
+    by simp [CType.erase, GridAligned, GridAlignedList], by simp [CType.erase, CType.eraseList, GridAligned, GridAlignedList],
+    by decide +kernel, rfl⟩
+
+/-- … and the hypotheses of `compatibleC_sound_partial` are met by a `StatusType` checked against the tuple it is
+described as, with a value in its set -/
+example : ∃ (a b : CType Rat), a.WF ∧ b.WF ∧ GridAligned a.erase ∧ GridAligned b.erase ∧ ResLeOne b.erase ∧
+    OptionalRespected a.erase b.erase ∧ b.limitsFree = true ∧ compatibleC a b = .ok () ∧
+    InSetC a (.tuple [.enum "IDLE" 100, .str "ok"]) := by
+  have wa : (CType.status [("IDLE", 100), ("BUSY", 300)] : CType Rat).WF := by simp [CType.WF, DType.namesOK]
+  have wb : (CType.tuple [.leaf (.enum [("IDLE", 100), ("BUSY", 300), ("ERROR", 400)]), .text unlimitedChars] : CType Rat).WF := by
+    simp [CType.WF, CType.WFList, DType.WF, DType.isLeafKind, DType.namesOK]
+  refine ⟨_, _, wa, wb, by simp [CType.erase, GridAligned, GridAlignedList],
+    by simp [CType.erase, CType.eraseList, GridAligned, GridAlignedList],
+    by simp [CType.erase, CType.eraseList, ResLeOne, ResLeOneList],
+    by simp [CType.erase, CType.eraseList, OptionalRespected, OptionalRespectedList], by decide, ?_, ?_⟩
+  · exact compatibleC_complete _ _ wa wb (by simp [CType.erase, GridAligned, GridAlignedList])
+      (by simp [CType.erase, CType.eraseList, GridAligned, GridAlignedList]) (by decide +kernel)
+  · simp [InSetC, InSet, InSetG, ZipInG, CType.erase, OrderedIn, unlimitedChars]
+    decide
 
 /-- the law classes are inhabited: the exact carrier -/
 example : LawfulFloatOps Rat ∧ CompatLaws Rat := ⟨inferInstance, inferInstance⟩
